@@ -116,6 +116,9 @@ def run(ctx):
     dflt_sites = [n for n in walk_local(rr.node) if isinstance(n, ast.If) and norm(n.test) in ("'default' in field", '"default" in field')]
     ok = len(dflt_sites) == 1 and any(isinstance(s, ast.Assign) and "['default']" in norm(s.value) for s in dflt_sites[0].body) and dflt_sites and any(isinstance(s, ast.Raise) and "SchemaResolutionError" in norm(s.exc) for s in ast.walk(ast.Module(body=dflt_sites[0].orelse, type_ignores=[])))
     ctx.check("C08.R3", "reader-only field: default if present else SchemaResolutionError", ok, rr.where(), f"{rr.qualname}: default filling", "a reader field missing from the writer must take its default, and raise SchemaResolutionError when it has none")
+    if ok:
+        from .common import ends_in_raise
+        ctx.check("C08.R3", "reader-only field without default: SchemaResolutionError on every path", ends_in_raise(dflt_sites[0].orelse), rr.where(dflt_sites[0]), f"{rr.qualname}: a path through the no-default arm completes normally", "a reader field the writer lacks and that has no default is left unset or filled with something else (under an option, a further test) instead of raising SchemaResolutionError")
     if dflt_sites:
         cfg = cfg_of(rr)
         g = [norm(t.ast) for (t, lab) in cfg.guards_of(cfg.node_of(dflt_sites[0].test)) if lab == "true"]
@@ -447,5 +450,28 @@ def reader_drop_discipline(ctx, a, rule):
                         ctx.violation(rule, inst + " is not one of the sites allowed to drop the reader schema", f.where(n), f"{f.qualname}: {norm(n)} under {sorted(true_facts(cfg, cfg.node_of(n)))[:4]}", "dropping the reader schema below the top level skips resolution for that subtree: sub-schemas that compare equal as text can still mean different types (references resolved against different name tables, aliases, defaults)")
                     continue
                 ctx.unrecognised(rule, inst, f.where(n), "reader schema replaced by an unknown value")
+        # ... and a nested value is read without a reader schema (read_data(.., None, ..)) only because none was given:
+        # the test that decides it looks at the reader schema and at nothing else
+        if "<locals>" in f.qualname:
+            continue
+        pm = {}
+        for n in ast.walk(f.node):
+            for c in ast.iter_child_nodes(n):
+                pm[id(c)] = n
+        for c in ast.walk(f.node):
+            if not (isinstance(c, ast.Call) and isinstance(c.func, ast.Name) and c.func.id == "read_data" and len(c.args) >= 4 and isinstance(c.args[3], ast.Constant) and c.args[3].value is None):
+                continue
+            deciding = []
+            q = c
+            while id(q) in pm:
+                par = pm[id(q)]
+                if isinstance(par, ast.If) and not any(q is x for x in ast.walk(par.test)) and "reader_schema" in names_in(par.test):
+                    deciding.append(par.test)
+                q = par
+            if not deciding:
+                continue
+            sites += 1
+            extra = sorted({nm for t in deciding for nm in names_in(t)} - {"reader_schema", "isinstance", "dict", "list", "str", "len", "bool"})
+            ctx.check(rule, f"{f.qualname}: `{norm(c)[:60]}` drops the reader schema only because none was given", not extra, f.where(c), f"{f.qualname}: read without resolution under `{norm(deciding[0])[:90]}`", f"whether the nested value is resolved against the reader's schema also depends on {extra}: sub-schemas that look alike (the same name on both sides) can still be different types")
     return sites
 
